@@ -94,6 +94,17 @@ def _quad(f, a, b, mu, sd):
     return tot, err
 
 
+def _unambiguous(xs, lo, hi):
+    """Evaluation points whose side of every limit survives XLA's flush-to-zero of subnormal numbers: a point that
+    differs from a limit by less than 1e-280 (without being equal to it) is dropped."""
+    x = xs[:, 0]
+    keep = np.ones(x.shape, bool)
+    for lim in (lo, hi):
+        for v in lim[np.isfinite(lim)]:
+            keep &= (x == v) | (np.abs(x - v) >= 1e-280)
+    return xs[keep]
+
+
 def _limits(case, which, R):
     v = case[which]
     if v is None:
@@ -148,9 +159,9 @@ def _run(case):
     if variant == "measure":
         # evaluation: u(x) inside, zero outside (points inside, outside and exactly at the limits)
         xs = list(np.asarray(case["xs"], float)) + [v for v in (lo[0], hi[0]) if np.isfinite(v)]
-        xs = np.array(xs).reshape(-1, 1)
+        xs = _unambiguous(np.array(xs).reshape(-1, 1), lo, hi)
         want = np.stack([np.where((xs[:, 0] >= lo[r]) & (xs[:, 0] <= hi[r]), u(r)(xs[:, 0]), 0.0) for r in range(R)])
-        ok, got = lib(fails, "evaluate", lambda: t(J(xs)))
+        ok, got = lib(fails, "evaluate", lambda: t(J(xs))) if len(xs) else (False, None)
         if ok:
             check(fails, "truncated:evaluate", got, want, np.maximum(want, 1e-300) + 1e-12 * np.exp(lb)[:, None])
         for nm, kk, kw in [("1", 0, {}), ("x", 1, {}), ("x**2", 2, {}), ("x**k", k, {"k": k})]:
@@ -182,10 +193,10 @@ def _run(case):
         return fails
     tag = f"normalised[{variant}]"
     xs = list(np.asarray(case["xs"], float)) + [0.5 * (max(lo[0], mu[0] - 3 * sd[0]) + min(hi[0], mu[0] + 3 * sd[0]))]
-    xs = np.array(xs).reshape(-1, 1)
+    xs = _unambiguous(np.array(xs).reshape(-1, 1), lo, hi)
     want = np.stack([np.where((xs[:, 0] >= lo[r]) & (xs[:, 0] <= hi[r]), u(r)(xs[:, 0]) / mom[r, 0], 0.0) for r in range(R)])
     amp = 1.0 / frac
-    ok, got = lib(fails, tag + ".evaluate", lambda: d(J(xs)))
+    ok, got = lib(fails, tag + ".evaluate", lambda: d(J(xs))) if len(xs) else (False, None)
     if ok:
         check(fails, tag + ":evaluate", got, want, (np.maximum(want, 1e-300) + 1e-12) * amp[:, None])
     ok, got = lib(fails, tag + ".integral", lambda: d.integrate("1"))
